@@ -326,6 +326,8 @@ class Conv:
                 if any(x is None for x in lst):
                     raise Outside("non-constant list")
                 self.shapes.add("listidx")
+                if len(lst) >= 6:
+                    self.shapes.add("list_of_six_or_more_with_runtime_index")
                 return self.node("listidx", ch=[self.expr(e.slice)], vals=lst)
         acc = self.access(e) if isinstance(e, (ast.Attribute, ast.Subscript)) else None
         if acc is not None:
